@@ -118,6 +118,13 @@ abbrev Container := Nat × List (Nat × ValId)
 series-id bitmap followed by ALL value ids in bitmap order (forward_flusher.go). -/
 abbrev FwdFile := List (KeyId × List Container)
 
+/-- where a store's `flush()` stands: `writing` = the sst file is being written (created, not yet
+installed, invisible to readers); `committed` = `flusher.Close()` succeeded (new version installed)
+but `immutable = nil` has not run yet -/
+inductive Phase
+  | idle | writing | committed
+  deriving DecidableEq, Repr
+
 structure Dict where
   mtb : DictPart := []
   imm : Option DictPart := none
@@ -130,6 +137,7 @@ structure Inv where
   imm : Option InvPart := none
   l0 : List InvPart := []
   l1 : List InvPart := []
+  phase : Phase := .idle
   deriving Repr
 
 structure Fwd where
@@ -137,6 +145,7 @@ structure Fwd where
   imm : Option FwdPart := none
   l0 : List FwdFile := []
   l1 : List FwdFile := []
+  phase : Phase := .idle
   deriving Repr
 
 structure State where
@@ -380,11 +389,48 @@ def Inv.prepare (onEmpty : Bool) (d : Inv) : Inv :=
   | some [] => if onEmpty then { d with imm := some d.mtb, mtb := [] } else d
   | some _ => d
 
-def Inv.flush (d : Inv) : Inv :=
+/-- `invertedIndex.flush` as one step (nobody looks inside; a flush already in progress makes
+`metricIndexDatabase.Flush` return at once: the `flushing` CAS) -/
+def Inv.flushNow (d : Inv) : Inv :=
   match d.imm with
   | none => d
   | some [] => d
   | some p => { d with imm := none, l0 := d.l0 ++ [p] }
+
+def Inv.flush (d : Inv) : Inv :=
+  if d.phase ≠ .idle then d else d.flushNow
+
+/-! The steps of `invertedIndex.flush` in source order (`Generated.C10.invFlushEvents`):
+`needFlush` → `NewFlusher`/`newInvertedIndexFlusher`/`WalkEntry` (file written) → `flusher.Close()`
+(file committed, new version installed) → `immutable = nil` under the lock. Readers see
+`files ∪ mutable ∪ immutable` at every point between them. -/
+
+/-- `needFlush()` holds and the sst file is being written -/
+def Inv.flushWrite (d : Inv) : Inv :=
+  if d.phase ≠ .idle then d
+  else
+    match d.imm with
+    | none => d
+    | some [] => d
+    | some _ => { d with phase := .writing }
+
+/-- the flush fails before `flusher.Close()` succeeded (file creation, write or manifest commit
+error): the error is returned, the immutable table stays for the retry -/
+def Inv.flushFail (d : Inv) : Inv :=
+  if d.phase = .writing then { d with phase := .idle } else d
+
+/-- `flusher.Close()` succeeded: the file is a level-0 file of the current version; `immutable` is
+still set -/
+def Inv.flushCommit (d : Inv) : Inv :=
+  if d.phase = .writing then
+    match d.imm with
+    | some p => { d with l0 := d.l0 ++ [p], phase := .committed }
+    | none => d
+  else d
+
+/-- `immutable = nil` -/
+def Inv.flushDrop (d : Inv) : Inv :=
+  if d.phase = .committed then { d with imm := none, phase := .idle } else d
 
 def Inv.compact (d : Inv) : Inv :=
   if d.l0.length > 1 then { d with l0 := [], l1 := [(d.l0 ++ d.l1).flatten] } else d
@@ -395,11 +441,36 @@ def Fwd.prepare (onEmpty : Bool) (d : Fwd) : Fwd :=
   | some [] => if onEmpty then { d with imm := some d.mtb, mtb := [] } else d
   | some _ => d
 
-def Fwd.flush (d : Fwd) : Fwd :=
+def Fwd.flushNow (d : Fwd) : Fwd :=
   match d.imm with
   | none => d
   | some [] => d
   | some p => { d with imm := none, l0 := d.l0 ++ [buildFwdFile p] }
+
+def Fwd.flush (d : Fwd) : Fwd :=
+  if d.phase ≠ .idle then d else d.flushNow
+
+/-- the steps of `forwardIndex.flush` (same order as `invertedIndex.flush`) -/
+def Fwd.flushWrite (d : Fwd) : Fwd :=
+  if d.phase ≠ .idle then d
+  else
+    match d.imm with
+    | none => d
+    | some [] => d
+    | some _ => { d with phase := .writing }
+
+def Fwd.flushFail (d : Fwd) : Fwd :=
+  if d.phase = .writing then { d with phase := .idle } else d
+
+def Fwd.flushCommit (d : Fwd) : Fwd :=
+  if d.phase = .writing then
+    match d.imm with
+    | some p => { d with l0 := d.l0 ++ [buildFwdFile p], phase := .committed }
+    | none => d
+  else d
+
+def Fwd.flushDrop (d : Fwd) : Fwd :=
+  if d.phase = .committed then { d with imm := none, phase := .idle } else d
 
 def Fwd.compact (cum : Bool) (d : Fwd) : Fwd :=
   if d.l0.length > 1 then { d with l0 := [], l1 := [mergeFwdFiles cum (d.l0 ++ d.l1)] } else d
@@ -407,6 +478,8 @@ def Fwd.compact (cum : Bool) (d : Fwd) : Fwd :=
 /-- placement steps of the histories the property quantifies over -/
 inductive Step
   | prepareMeta | flushMeta | compactMeta | prepareIndex | flushIndex | compactIndex
+  -- the index flush seen from inside: `metricIndexDatabase.Flush` runs forward.flush, then inverted.flush
+  | fwdWrite | fwdFail | fwdCommit | fwdDrop | invWrite | invFail | invCommit | invDrop
   deriving DecidableEq, Repr
 
 def State.step (F : Flags) (st : State) : Step → State
@@ -415,6 +488,14 @@ def State.step (F : Flags) (st : State) : Step → State
   | .compactMeta => { st with dict := st.dict.compact }
   | .prepareIndex => { st with inv := st.inv.prepare F.prepareOnEmpty, fwd := st.fwd.prepare F.prepareOnEmpty }
   | .flushIndex => { st with inv := st.inv.flush, fwd := st.fwd.flush }
+  | .fwdWrite => { st with fwd := st.fwd.flushWrite }
+  | .fwdFail => { st with fwd := st.fwd.flushFail }
+  | .fwdCommit => { st with fwd := st.fwd.flushCommit }
+  | .fwdDrop => { st with fwd := st.fwd.flushDrop }
+  | .invWrite => { st with inv := st.inv.flushWrite }
+  | .invFail => { st with inv := st.inv.flushFail }
+  | .invCommit => { st with inv := st.inv.flushCommit }
+  | .invDrop => { st with inv := st.inv.flushDrop }
   | .compactIndex => { st with inv := st.inv.compact, fwd := st.fwd.compact F.lutCumulative }
 
 /-! ### tagValuesLookup -/
